@@ -100,6 +100,9 @@ class TU:
         self.typedefs = slim["typedefs"]    # name -> underlying type text
         self.arrays = slim["arrays"]        # VarDecl id -> {"name", "type", "values": [...]} (static const integer arrays)
         self.enums = slim["enums"]          # EnumConstantDecl id -> value
+        self.enumtypes = slim.get("enumtypes", {})   # enum tag -> underlying integer type text
+        self.sizeofs = slim.get("sizeofs", {})       # type text -> sizeof (filled on demand by a second clang run)
+        self.probe = None                   # callable(type text) -> int
         self._tcache = {}
 
     def ctype(self, tnode):
@@ -146,6 +149,8 @@ class TU:
             return T("int", s, w)
         if base in self.typedefs:
             return self.parse_type(self.typedefs[base])
+        if base.startswith("enum ") and base[5:] in self.enumtypes:
+            return self.parse_type(self.enumtypes[base[5:]])
         return T("other", text=txt)
 
 
@@ -197,11 +202,33 @@ def load_tu(repo, rel, cache_dir):
     pre = subprocess.run(["clang"] + CLANG_FLAGS + inc + ["-E", "-P"] + src_args, input=stdin, capture_output=True, text=True)
     if pre.returncode != 0:
         raise Unsupported("%s does not preprocess: %s" % (rel, pre.stderr.strip()[:300]))
-    key = hashlib.sha1((rel + "\0" + " ".join(CLANG_FLAGS) + "\0" + pre.stdout + "\0v3").encode()).hexdigest()
+    key = hashlib.sha1((rel + "\0" + " ".join(CLANG_FLAGS) + "\0" + pre.stdout + "\0v4").encode()).hexdigest()
     cfile = Path(cache_dir) / (key + ".json")
+
+    def make_tu(slim):
+        tu = TU(slim)
+
+        def probe(type_text):
+            """sizeof(type) as clang evaluates it in this translation unit (second run, cached with the unit)"""
+            if type_text not in slim["sizeofs"]:
+                if not re.fullmatch(r"[A-Za-z_][A-Za-z0-9_ ]*\*?", type_text):
+                    raise Unsupported("sizeof(%s)" % type_text)
+                text = '#include "%s"\nenum { c2coq_sizeof_probe = sizeof(%s) };\n' % (path, type_text)
+                q = subprocess.run(["clang"] + CLANG_FLAGS + inc + ["-Xclang", "-ast-dump=json", "-Xclang",
+                                    "-ast-dump-filter=c2coq_sizeof_probe", "-x", "c", "-"], input=text, capture_output=True, text=True)
+                m = re.search(r'"kind":\s*"ConstantExpr".*?"value":\s*"(\d+)"', q.stdout, re.S)
+                if q.returncode != 0 or not m:
+                    raise Unsupported("sizeof(%s) could not be evaluated" % type_text)
+                slim["sizeofs"][type_text] = int(m.group(1))
+                tmp = cfile.with_suffix(".tmp%d" % os.getpid())
+                tmp.write_text(json.dumps(slim))
+                os.replace(tmp, cfile)
+            return slim["sizeofs"][type_text]
+        tu.probe = probe
+        return tu
     if cfile.exists():
         try:
-            return TU(json.loads(cfile.read_text()))
+            return make_tu(json.loads(cfile.read_text()))
         except Exception:
             pass
     p = subprocess.run(["clang"] + CLANG_FLAGS + inc + ["-Xclang", "-ast-dump=json"] + src_args, input=stdin,
@@ -209,7 +236,7 @@ def load_tu(repo, rel, cache_dir):
     if p.returncode != 0 or not p.stdout.startswith("{"):
         raise Unsupported("%s does not compile with clang: %s" % (rel, p.stderr.strip()[:300]))
     ast = json.loads(p.stdout)
-    slim = {"funcs": {}, "typedefs": {}, "arrays": {}, "enums": {}}
+    slim = {"funcs": {}, "typedefs": {}, "arrays": {}, "enums": {}, "enumtypes": {}, "sizeofs": {}}
     for n in ast.get("inner", []):
         k = n.get("kind")
         if k == "TypedefDecl":
@@ -236,6 +263,7 @@ def load_tu(repo, rel, cache_dir):
                     pass
         elif k == "EnumDecl":
             nxt = 0
+            vals = []
             for c in n.get("inner", []):
                 if c.get("kind") != "EnumConstantDecl":
                     continue
@@ -248,11 +276,16 @@ def load_tu(repo, rel, cache_dir):
                 if v is not None:
                     slim["enums"][c["id"]] = v
                     nxt = v + 1
+                    vals.append(v)
+            if n.get("name"):
+                fixed = n.get("fixedUnderlyingType", {})
+                slim["enumtypes"][n["name"]] = fixed.get("desugaredQualType") or fixed.get("qualType") or \
+                    ("int" if any(v < 0 for v in vals) else "unsigned int")
     Path(cache_dir).mkdir(parents=True, exist_ok=True)
     tmp = cfile.with_suffix(".tmp%d" % os.getpid())
     tmp.write_text(json.dumps(slim))
     os.replace(tmp, cfile)
-    return TU(slim)
+    return make_tu(slim)
 
 
 # ------------------------------------------------------------------------------------------ values
@@ -612,6 +645,8 @@ class FnTranslator:
                 t = self.typ(node["inner"][0])
             if t.isint():
                 return V.k(1 if t.kind == "bool" else t.width // 8)
+            if "argType" in node and self.tu.probe:
+                return V.k(self.tu.probe(node["argType"]["qualType"]))
             raise Unsupported("sizeof of %r" % (t.text or t.kind))
         raise Unsupported("expression %s" % k)
 
@@ -982,6 +1017,8 @@ class FnTranslator:
             return self.ifstmt(s, rest, env, k, kb, kc)
         if kind in ("ForStmt", "WhileStmt", "DoStmt"):
             return self.loop(s, rest, env, k, kb, kc)
+        if kind == "SwitchStmt":
+            return self.switch(s, rest, env, k, kb, kc)
         if kind in ("BinaryOperator", "CompoundAssignOperator", "UnaryOperator", "ParenExpr"):
             x = s
             while x.get("kind") == "ParenExpr":
@@ -1085,6 +1122,66 @@ class FnTranslator:
         if len(parts) == 1:
             return parts[0] + "\n"
         return "(" + ", ".join(parts) + ")\n"
+
+    def switch(self, s, rest, env, k, kb, kc):
+        """switch over a flat body: labels and statements at the top level of one compound statement.  Control enters
+        at the matching label (or default, or leaves) and runs to the end of the body; break leaves."""
+        inner = [c for c in s["inner"] if c]
+        cond, body = inner[0], inner[-1]
+        if len(inner) != 2 or body.get("kind") != "CompoundStmt":
+            raise Unsupported("switch whose body is not a compound statement")
+        v = self.full_expr(cond, env)
+        head = self.flush()
+        items = []      # ('case', value) | ('default',) | ('stmt', node)
+        def flatten(n):
+            kk = n.get("kind")
+            if kk == "CaseStmt":
+                if n.get("isGNURange"):
+                    raise Unsupported("case range")
+                sub = [c for c in n["inner"] if c]
+                cv = self.expr(sub[0], env)
+                if cv.const is None:
+                    raise Unsupported("case label that is not a constant")
+                items.append(("case", cv.const))
+                flatten(sub[-1])
+            elif kk == "DefaultStmt":
+                items.append(("default",))
+                flatten([c for c in n["inner"] if c][-1])
+            else:
+                items.append(("stmt", n))
+        for c in body.get("inner", []):
+            flatten(c)
+        for it in items:
+            if it[0] == "stmt" and self.has_label(it[1]):
+                raise Unsupported("case label nested inside a statement")
+        after = lambda e: self.stmts(rest, e, k, kb, kc)
+
+        def code_from(i, e):
+            todo = [it[1] for it in items[i:] if it[0] == "stmt"]
+            return self.stmts(todo, e, after, after, kc)
+        cases = [(it[1], i) for i, it in enumerate(items) if it[0] == "case"]
+        if len({c for c, _ in cases}) != len(cases):
+            raise Unsupported("duplicate case labels")
+        dflt = [i for i, it in enumerate(items) if it[0] == "default"]
+        if v.const is not None:
+            for c, i in cases:
+                if c == v.const:
+                    return head + code_from(i, env)
+            return head + (code_from(dflt[0], env) if dflt else after(env))
+        text = code_from(dflt[0], env.copy()) if dflt else after(env.copy())
+        for c, i in reversed(cases):
+            self.grow()
+            text = "if Z.eqb %s %s then\n%selse\n%s" % (v.pz(), lit(c), indent(code_from(i, env.copy())), indent(text))
+        return head + text
+
+    def has_label(self, node):
+        if not isinstance(node, dict) or not node:
+            return False
+        if node.get("kind") in ("CaseStmt", "DefaultStmt"):
+            return True
+        if node.get("kind") == "SwitchStmt":
+            return False
+        return any(self.has_label(c) for c in node.get("inner", []))
 
     def exhausted(self):
         n = len(self.info.written)
